@@ -114,8 +114,54 @@ impl Pat {
     }
 }
 
+/// A member that stands for the *empty combinator* `any([])` (an alternation without branches has
+/// no spelling as text).  With such a member the pattern is built through the nested route:
+/// `any([any([]), any([g1]), …])`.
+pub fn empty_any_marker() -> Expr {
+    vec![Tok::Alt(vec![])]
+}
+pub fn is_empty_any_marker(e: &Expr) -> bool {
+    e.len() == 1 && matches!(&e[0], Tok::Alt(bs) if bs.is_empty())
+}
+/// now and then one member of the pattern is the empty combinator
+pub fn add_empty_member(t: &mut Tape, exprs: &mut Vec<Expr>) {
+    if t.chance(10) {
+        let i = t.below(exprs.len() + 1);
+        exprs.insert(i, empty_any_marker());
+    }
+}
+
 /// Build a glob (one expression) or an `any` combinator (several).  `Ok(None)`: does not build.
 pub fn build_pat(exprs: &[Expr]) -> Result<Option<(String, Pat)>, String> {
+    if exprs.iter().any(is_empty_any_marker) {
+        let mut members: Vec<Any<'static>> = Vec::new();
+        let mut texts: Vec<String> = Vec::new();
+        for e in exprs {
+            if is_empty_any_marker(e) {
+                match guard(|| wax::any(Vec::<Glob<'static>>::new()))? {
+                    Ok(a) => members.push(a),
+                    Err(_) => return Ok(None),
+                }
+                texts.push("any([])".into());
+            }
+            else {
+                let text = render_text(e);
+                let g = match build(&text)? {
+                    Ok(g) => g,
+                    Err(_) => return Ok(None),
+                };
+                match guard(|| wax::any([g]))? {
+                    Ok(a) => members.push(a),
+                    Err(_) => return Ok(None),
+                }
+                texts.push(format!("any([{:?}])", text));
+            }
+        }
+        return match guard(|| wax::any(members))? {
+            Ok(a) => Ok(Some((format!("any([{}])", texts.join(", ")), Pat::A(a)))),
+            Err(_) => Ok(None),
+        };
+    }
     let texts: Vec<String> = exprs.iter().map(render_text).collect();
     if texts.len() == 1 {
         return Ok(match build(&texts[0])? {
@@ -140,6 +186,9 @@ pub fn build_pat(exprs: &[Expr]) -> Result<Option<(String, Pat)>, String> {
 pub fn pat_pool(t: &mut Tape, exprs: &[Expr], scale: usize) -> Vec<String> {
     let mut out = Vec::new();
     for e in exprs {
+        if is_empty_any_marker(e) {
+            continue;
+        }
         let text = render_text(e);
         let pat = pattern_of(&text);
         out.extend(path_pool(t, e, pat.as_deref(), scale));
